@@ -117,6 +117,8 @@ func exprString(e ast.Expr) string {
 // rewriteCalls handles .Range(f) and os.Exit(c) anywhere inside n (not
 // descending into nested statements' blocks twice is harmless: the rewrite is
 // idempotent because the rewritten call no longer matches).
+var rewriteNow bool
+
 func rewriteCalls(n ast.Node) {
 	ast.Inspect(n, func(x ast.Node) bool {
 		c, ok := x.(*ast.CallExpr)
@@ -137,6 +139,11 @@ func rewriteCalls(n ast.Node) {
 		}
 		if id, ok := s.X.(*ast.Ident); ok && id.Name == "os" && s.Sel.Name == "Exit" && len(c.Args) == 1 {
 			c.Fun = &ast.SelectorExpr{X: ast.NewIdent("simrt"), Sel: ast.NewIdent("Exit")}
+		}
+		// two reads of a real clock never return the same instant; the bubble's clock
+		// stands still between events
+		if id, ok := s.X.(*ast.Ident); ok && rewriteNow && id.Name == "time" && s.Sel.Name == "Now" && len(c.Args) == 0 {
+			c.Fun = &ast.SelectorExpr{X: ast.NewIdent("simrt"), Sel: ast.NewIdent("Now")}
 		}
 		return true
 	})
@@ -465,6 +472,7 @@ func main() {
 			}
 			rel, _ := filepath.Rel(*repo, fn)
 			curFile = rel
+			rewriteNow = dir == "tars" || dir == "tars/transport"
 			src, err := os.ReadFile(fn)
 			if err != nil {
 				fmt.Fprintln(os.Stderr, err)
@@ -480,7 +488,7 @@ func main() {
 					t.Body.List = processList(t.Body.List)
 				}
 			}
-			usesOS := false
+			usesOS, usesTime := false, false
 			if netSet[dir] {
 				for _, im := range f.Imports {
 					if im.Path.Value == `"net"` {
@@ -492,6 +500,9 @@ func main() {
 			for _, im := range f.Imports {
 				if im.Path.Value == `"os"` && im.Name == nil {
 					usesOS = true
+				}
+				if im.Path.Value == `"time"` && im.Name == nil {
+					usesTime = true
 				}
 			}
 			added := false
@@ -519,6 +530,9 @@ func main() {
 			buf.WriteString("\nvar _ = simrt.Yield\n")
 			if usesOS {
 				buf.WriteString("var _ = os.Getpid\n")
+			}
+			if usesTime {
+				buf.WriteString("var _ = time.Now\n")
 			}
 			dst := filepath.Join(*outdir, "inst", rel)
 			os.MkdirAll(filepath.Dir(dst), 0755)
